@@ -13,7 +13,8 @@
 (*     the counterexample that TLC is expected to find.                       *)
 EXTENDS NotifyMC, Json
 
-CONSTANTS MinSteps, MaxSteps
+CONSTANTS MinSteps, MaxSteps,
+          Bias   \* simulation only: prefer letting time pass while a timer is armed (RandomElement)
 VARIABLES hist, nh, stopped
 gvars == <<vars, hist, nh, stopped>>
 
@@ -32,15 +33,20 @@ GenSdk ==
   \/ \E s \in Sessions : UserHandler(s) /\ nh' = [nh EXCEPT ![s][hnd[s].msg.topic] = @ + 1] /\ UNCHANGED <<hist, stopped>>
   \/ (\E s \in Sessions, c \in Slots : ServeList(s, c) \/ CachePut(s, c)) /\ Same
 
+TimeEnv ==
+  \/ Tick /\ H("tick", "", "")
+  \/ \E k \in Kinds : TickRace(k) /\ H("tchange", k, "")
+OtherEnv ==
+  \/ \E k \in Kinds : Change(k) /\ H("change", k, "")
+  \/ \E u \in Uris : Updated(u) /\ H("updated", u, "")
+  \/ \E s \in Sessions : (Connect(s) /\ H("connect", s, "")) \/ (Close(s) /\ H("close", s, ""))
+  \/ \E s \in Sessions, u \in Uris : (Subscribe(s, u) /\ H("subscribe", s, u)) \/ (Unsubscribe(s, u) /\ H("unsubscribe", s, u))
+  \/ \E s \in Sessions, c \in Slots, i \in Items : ListStart(s, c, i) /\ H("list", s, i)
+  \/ \E g \in GateNames, s \in Sessions : (Hold(g, s) /\ Cardinality(gates) < 2 /\ H("hold", g, s)) \/ (Release(g, s) /\ H("release", g, s))
+TickEn == EnvOK /\ now < MaxTime /\ \E n \in Notifs : TimerArmed(n)
 GenEnv ==
   /\ Go /\ UNCHANGED <<nh, stopped>>
-  /\ \/ \E k \in Kinds : (Change(k) /\ H("change", k, "")) \/ (TickRace(k) /\ H("tchange", k, ""))
-     \/ \E u \in Uris : Updated(u) /\ H("updated", u, "")
-     \/ \E s \in Sessions : (Connect(s) /\ H("connect", s, "")) \/ (Close(s) /\ H("close", s, ""))
-     \/ \E s \in Sessions, u \in Uris : (Subscribe(s, u) /\ H("subscribe", s, u)) \/ (Unsubscribe(s, u) /\ H("unsubscribe", s, u))
-     \/ \E s \in Sessions, c \in Slots, i \in Items : ListStart(s, c, i) /\ H("list", s, i)
-     \/ Tick /\ H("tick", "", "")
-     \/ \E g \in GateNames, s \in Sessions : (Hold(g, s) /\ H("hold", g, s)) \/ (Release(g, s) /\ H("release", g, s))
+  /\ IF Bias /\ TickEn /\ RandomElement(1..5) <= 3 THEN TimeEnv ELSE (TimeEnv \/ OtherEnv)
 
 \* the harness' drain: stop acting, open every gate, let every timer fire
 Stop == /\ ~stopped /\ EnvOK /\ Len(hist) >= MinSteps
